@@ -20,8 +20,9 @@
                    with r_i = (method, target, body) of ds_i.
    Missing for the full statement: (a) the RFC's own lexical reading of a head (Rfc9112.field_lines over the raw
    bytes) yields the same CL/TE values as the code's scanner (HeadFields) — here the class is judged on the
-   scanner's fields; (b) Body.readBodyChunked succeeding implies Rfc9112.chunked_body yields the same data and
-   rest.  Both are checked on every harness case by prop_ok (rfc_frame runs on the raw bytes). *)
+   scanner's fields; (b) for chunked bodies the chunk sequence is proved (C01_chunk_decoding_is_rfc) but not that
+   parseTrailer delimits the trailer section where Rfc9112.trailer_section does.  Both are checked on every
+   harness case by prop_ok (rfc_frame runs on the raw bytes). *)
 From FH Require Import Model.Base Model.Lines Model.ReqHead Model.Body Model.Framing Spec.Rfc9112 Spec.HeadSpec
   Check.C01Check Proof.FramingProof.
 Open Scope nat_scope.
@@ -133,6 +134,14 @@ Theorem C01_dispatch_is_rfc_prefix_partial : forall c s i d,
     end.
 Proof. exact dispatch_prefix_partial. Qed.
 Print Assumptions C01_dispatch_is_rfc_prefix_partial.
+
+(* ---- 7b. chunked bodies: whatever readBodyChunked accepts (any limit, any input), the chunk grammar of
+        RFC 9112 section 7.1 accepts, with the same decoded data and the same unread rest (= where the
+        trailer section starts) ---- *)
+Theorem C01_chunk_decoding_is_rfc : forall max b d r pk,
+  wf_bytes b -> readBodyChunked max [] b = BOk d r pk -> chunks (S (length b)) b = ChOk d r.
+Proof. exact readBodyChunked_rfc. Qed.
+Print Assumptions C01_chunk_decoding_is_rfc.
 
 (* ---- 8. configuration.  FULL statement ("the dispatched sequence is the same for all configurations") is
         false by design of the options: GetOnly rejects other methods, DisablePreParseMultipartForm changes how a
